@@ -167,7 +167,7 @@ class Broker:
 
     # ------------------------------------------------------------------ log
     def log(self, kind, owner=None, **kw):
-        rec = {"seq": next(self.opseq), "t": self.clock.now, "kind": kind, "owner": owner, "ctx": self.ctx}
+        rec = {"seq": next(self.opseq), "t": self.clock.now, "kind": kind, "owner": owner, "ctx": self.ctx, "step": getattr(self, "step_no", 0)}
         rec.update(kw)
         self.oplog.append(rec)
         return rec
